@@ -7,7 +7,7 @@ import json
 
 from hypothesis import strategies as st
 
-from vlib import proggen, progrun, ref
+from vlib import proggen, progrun, ref, store
 from vlib.props.c01 import run_program
 from vlib.runner import Fail, InvalidCase, Sub, exc_locus
 
@@ -718,7 +718,39 @@ def targeted(kinds, roots, call_bias=False):
     )
 
 
+def check_nested_tracked(case) -> list[Fail]:
+    """Tracked builders nested in one host (TrackedDfg.new_nested): whatever one of them tracked (or failed to
+    track), an index that a sibling never tracked is refused there by every operation that takes indices."""
+    import hugr.ops as ops
+    import hugr.tys as tys
+    from hugr.build.dfg import Dfg
+    from hugr.build.tracked_dfg import TrackedDfg
+
+    outer = Dfg(*[tys.Bool] * (1 + case["n"]))
+    sibs = [TrackedDfg.new_nested(ops.DFG([]), outer.hugr, outer.parent_node) for _ in range(2 + case["extra"])]
+    for j in range(case["n"] + 1):
+        try:
+            sibs[0].track_wire(outer.inputs()[j])
+        except Exception:  # noqa: BLE001 - a builder that carries no tracking state refuses; nothing is tracked then
+            pass
+    b = sibs[1 + case["which"] % (len(sibs) - 1)]
+    idx = case["idx"] % (case["n"] + 1)
+    before = store.snapshot(outer.hugr)
+    uses = {"add": lambda: b.add(ops.Noop()(idx)), "set_indexed_outputs": lambda: b.set_indexed_outputs(idx), "untrack_wire": lambda: b.untrack_wire(idx), "tracked_wire": lambda: b.tracked_wire(idx), "extend": lambda: b.extend(ops.Noop()(idx))}
+    fails = []
+    try:
+        uses[case["use"]]()
+        fails.append(Fail("silently-accepted", "untracked-index-in-nested-tracked-builder:" + case["use"], f"index {idx} was tracked by a sibling builder only"))
+    except Exception:  # noqa: BLE001
+        if store.snapshot(outer.hugr) != before:
+            fails.append(Fail("refused-but-recorded", "untracked-index-in-nested-tracked-builder:" + case["use"], ""))
+    return fails
+
+
 SUBS = [
+    Sub("nested-tracked-index", check_nested_tracked, strategy=lambda tier: st.fixed_dictionaries({"n": st.integers(0, 2), "extra": st.integers(0, 1), "which": st.integers(0, 3), "idx": st.integers(0, 3),
+                                                                                                  "use": st.sampled_from(["add", "set_indexed_outputs", "untrack_wire", "tracked_wire", "extend"])}),
+        nontrivial=lambda c: True, classes=lambda c: [c["use"]], n_quick=120, n_thorough=500),
     Sub("injected", check, fuzz_runs=800, strategy=strategy, nontrivial=nontrivial, classes=classes, n_quick=400, n_thorough=3000, sample_ok=lambda c: len(json.dumps(c)) < 2500),
     Sub("cfg-injections", check, strategy=targeted(["outside-cfg-wire", "exit-row-mismatch", "non-dataflow-wire-across-blocks", "root-as-wire", "order-port-as-wire"], ("cfg", "dfg", "function")), nontrivial=nontrivial, classes=classes, n_quick=150, n_thorough=800,
         sample_ok=lambda c: len(json.dumps(c)) < 2500),
